@@ -251,7 +251,7 @@ class CHECK(Check):
             n = rng.choice([2, 3, 3, 4, 4, 5, 6, 7, 8, 10, 12])
             m = ms + mz
             kind = rng.choice(["generic", "generic", "generic", "collinear", "duplicate", "constant", "onehot", "intlike",
-                               "nearcollinear", "bigoffset"])
+                               "nearcollinear"])
             offs = [F(rng.randint(-6, 6)) for _ in range(ms)]
             if kind == "onehot":
                 S = [[F(0)] * ms for _ in range(n)]
@@ -282,13 +282,6 @@ class CHECK(Check):
                 a, b = rng.sample(range(ms), 2)
                 for i in range(n):
                     S[i][b] = S[i][a]
-            if kind == "bigoffset":
-                # seeded C15c: a sensitive column whose spread is tiny next to its offset (ids, timestamps): a tolerance-based
-                # "this column is constant" shortcut (np.isclose: rtol 1e-5) leaves its correlation in.  Exact in float64.
-                t = rng.randrange(ms)
-                big = F(2 ** rng.choice([20, 24]))
-                for i in range(n):
-                    S[i][t] = big + rng.randint(0, 7)
             if kind == "constant":
                 t = rng.randrange(ms)
                 c0 = F(rng.randint(-5, 5))
